@@ -709,7 +709,7 @@ Proof.
   - unfold ex_copier at 1. cbn [fbody]. eapply ex_seq_n.
     + apply ex_def. apply ev_fresh with (o := 1) (ob := mkobj 0 []); [reflexivity |]. intros r [].
     + eapply ex_seq_n.
-      * eapply ex_store with (y := 1) (ob := mkobj 0 []); [simpl; auto | reflexivity | reflexivity | intros r []].
+      * eapply ex_store with (y := 1) (o := 1) (ob := mkobj 0 []) (ob' := mkobj 9 []); [simpl; auto | reflexivity | reflexivity | intros r []].
       * apply ex_return with (y := 1). simpl. auto.
   - reflexivity.
 Qed.
